@@ -42,6 +42,15 @@ def _classify(o, idx_expected):
     return ("exc", o[1])
 
 
+FLAG_ROTATION = [8, 2, 8, 1, 4, 8 | 2, 0, 8 | 4, 8 | 1]
+
+
+def _flag(i: int, salt: int) -> int:
+    """the look-ups are about distances, times and heights: the kind of a row (range / zero-up / zero-down / Mach / closing row,
+    as in extra-data output) rotates and must not matter; even salts keep plain range rows"""
+    return 8 if salt % 2 == 0 else FLAG_ROTATION[(i + salt) % len(FLAG_ROTATION)]
+
+
 def replay_case(chk: core.Check, case: dict, units) -> None:
     m = impl.pb()
     from py_ballisticcalc import helpers as H
@@ -61,7 +70,7 @@ def replay_case(chk: core.Check, case: dict, units) -> None:
             exact_unit = U in (m.Unit.Inch, m.Unit.Foot, m.Unit.Yard)
             if not exact_unit and q2 % 2 == 0:
                 continue  # metric units do not round-trip exactly: only queries strictly between row values
-            rows = [impl.make_row(time=float(i), distance=U(float(v))) for i, v in enumerate(col)]
+            rows = [impl.make_row(time=float(i), distance=U(float(v)), flag=_flag(i, q2 + n)) for i, v in enumerate(col)]
             if (sum(col) + q2 + n) % 2:
                 # display history: the caller has looked at every other row in another unit (`<<` re-labels in place, the
                 # magnitude is untouched): the order of the rows is the order of their magnitudes, whatever they display in
@@ -105,7 +114,7 @@ def replay_case(chk: core.Check, case: dict, units) -> None:
             elif o[1] != float(want):
                 bad("C20.WrongIndex", "helpers.find_time_for_distance_in_shot", o[1], U)
     elif op in ("time", "near"):
-        rows = [impl.make_row(time=float(v), distance=m.Unit.Foot(float(i))) for i, v in enumerate(col)]
+        rows = [impl.make_row(time=float(v), distance=m.Unit.Foot(float(i)), flag=_flag(i, q2 + dev2 + n)) for i, v in enumerate(col)]
         hr = m.HitResult(shot, rows, False)
         q = q2 / 2.0
         if op == "time":
@@ -120,8 +129,9 @@ def replay_case(chk: core.Check, case: dict, units) -> None:
         elif o[1] not in req:
             bad("C20.WrongIndex", name, o[1])
     elif op == "apex":
-        rows = [impl.make_row(time=float(i), distance=m.Unit.Foot(float(i)), height=m.Unit.Foot(float(v)))
+        rows = [impl.make_row(time=float(i), distance=m.Unit.Foot(float(i)), height=m.Unit.Foot(float(v)), flag=_flag(i, sum(col) + n))
                 for i, v in enumerate(col)]
+        # (rows of an extra-data trajectory: zero crossings and the Mach row may come BEFORE the highest row - an uphill shot)
         if (sum(col) + n) % 2:
             for i, r_ in enumerate(rows):
                 if i % 2:
